@@ -60,8 +60,8 @@ def run(ctx, rep):
         n_w = flow.describe(we, wc[1][2]["args"][2])
         n_r = flow.describe(re_, rc[1][2]["args"][1])
         u_r = "unwrap(%s)" % ("get_unary_encoded(%s)" % ", ".join(flow.describe(re_, a) for a in rc[0][2]["args"]))
-        rep.add("B1", "mantissa-width-writer", n_w == "Sub(%s, K1).0" % u_w, we.where(wc[1][0]), "n_bits count %s with unary value %s" % (n_w, u_w))
-        rep.add("B1", "mantissa-width-reader", n_r == "Sub(%s, K1).0" % u_r, re_.where(rc[1][0]), "n_bits count %s with unary value %s" % (n_r, u_r))
+        rep.add("B1", "mantissa-width-writer", n_w in ("Sub(%s, K1).0" % u_w, "Sub(%s, K1)" % u_w), we.where(wc[1][0]), "n_bits count %s with unary value %s" % (n_w, u_w))
+        rep.add("B1", "mantissa-width-reader", n_r in ("Sub(%s, K1).0" % u_r, "Sub(%s, K1)" % u_r), re_.where(rc[1][0]), "n_bits count %s with unary value %s" % (n_r, u_r))
     # ---- callers hand the same context pairs ----------------------------------------------------
     def pairs(fn_suffix, argA, argB):
         out = {}
